@@ -439,6 +439,8 @@ def run_pool(tier, seed, names=None, force=False):
     res["wall_s"] = round(time.time() - t0, 1)
     with open(rfile, "w") as f:
         json.dump(res, f, indent=1)
+    prune_pool_cache(5)
+    vlib.prune_build_cache()
     return res
 
 
